@@ -2,19 +2,24 @@ package p17
 
 // Native fuzz targets (thorough tier, run by hand - see NOTES.md):
 //
-//	go test ./p17/ -run '^$' -fuzz '^FuzzC17ConnectorDoc$' -fuzztime 60s
-//	go test ./p17/ -run '^$' -fuzz '^FuzzC17PipelineDoc$'  -fuzztime 60s
-//	go test ./p17/ -run '^$' -fuzz '^FuzzC17ProcessorDoc$' -fuzztime 60s
+//	go test -tags verif ./p17/ -run '^$' -fuzz '^FuzzC17ConnectorDoc$' -fuzztime 60s
+//	go test -tags verif ./p17/ -run '^$' -fuzz '^FuzzC17PipelineDoc$'  -fuzztime 60s
+//	go test -tags verif ./p17/ -run '^$' -fuzz '^FuzzC17ProcessorDoc$' -fuzztime 60s
 //
-// raw bytes -> stored as the document of one entity -> services Init. If Init
-// accepts the document, then load -> re-store through the store's own Set -> load
-// must be a fixed point (decode∘encode∘decode == decode), and nothing may panic.
+// raw bytes -> stored as the document of one entity -> services Init (inside
+// recover). For documents IN THE DOMAIN (inFuzzDomain: a complete JSON object
+// with a non-empty string "ID" and no duplicate top-level keys - something a
+// Conduit version could have written): Init must not panic, and if Init accepts
+// the document then load -> re-store through the store's own Set -> load must be
+// a fixed point (decode∘encode∘decode == decode).
 //
-// Out of the domain (skipped, not failed): documents whose decoded string fields
-// hold invalid UTF-8 (the encoder replaces it by U+FFFD; string fields are only
-// promised for valid UTF-8, see gen_test.go).
+// Documents outside the domain are only classified (fuzz:out-of-domain-panic /
+// -rejected / -accepted), never reported. Also skipped: in-domain documents whose
+// decoded string fields hold invalid UTF-8 (the encoder replaces it by U+FFFD;
+// string fields are only promised for valid UTF-8, see gen_test.go).
 
 import (
+	"bytes"
 	"context"
 	"encoding/base64"
 	"encoding/json"
@@ -68,78 +73,126 @@ func validStrings(v reflect.Value) bool {
 
 const fuzzID = "fuzz"
 
-// keyPipelineNilInstance: pipeline.Store.decode dereferences the embedded
-// *Instance of encodableInstance, which stays nil when the document is `null` or
-// an object without any Instance field (NOTES.md, finding F1). Recognised by the
-// panicking frame.
-const keyPipelineNilInstance = prop + "/fuzz/init-panic/pipeline.Store.decode-nil-instance"
-
-// keyConnectorNullDoc: connector.Store.decode unmarshals into a **Instance, so the
-// document `null` sets the pointer to nil and the following conn.State
-// dereferences it (NOTES.md, finding F2).
-const keyConnectorNullDoc = prop + "/fuzz/init-panic/connector.Store.decode-null-document"
+// inFuzzDomain decides whether raw is a document the property speaks about: one
+// that some Conduit version could have written. Precisely (decided with
+// encoding/json, never with the decoder under test):
+//
+//  1. the WHOLE input is exactly one valid JSON value (json.Valid: no trailing
+//     bytes, no truncated literals such as `nul`);
+//  2. that value is an object (not null, not an array/scalar);
+//  3. no two top-level keys are equal under Unicode case folding (the decoders
+//     match field names case-insensitively; Conduit never writes duplicates);
+//  4. it has the member "ID" (exactly this spelling) whose value is a non-empty
+//     JSON string - every store's Set refuses an empty id and every encoder
+//     writes all exported fields (no omitempty), so ID is always there.
+//
+// Everything else (`null`, `{}`, `nul`, `{"Status":1}`, `{} garbage` ...) is out
+// of the domain: it is still run through Init inside recover, but only counted.
+func inFuzzDomain(raw []byte) bool {
+	if !json.Valid(raw) {
+		return false
+	}
+	dec := json.NewDecoder(bytes.NewReader(raw))
+	tok, err := dec.Token()
+	if err != nil || tok != json.Delim('{') {
+		return false
+	}
+	var keys []string
+	hasID := false
+	for dec.More() {
+		kt, err := dec.Token()
+		if err != nil {
+			return false
+		}
+		key, ok := kt.(string)
+		if !ok {
+			return false
+		}
+		var val json.RawMessage
+		if err := dec.Decode(&val); err != nil {
+			return false
+		}
+		for _, k := range keys {
+			if strings.EqualFold(k, key) {
+				return false
+			}
+		}
+		keys = append(keys, key)
+		if key == "ID" {
+			var id string
+			if json.Unmarshal(val, &id) != nil || id == "" || bytes.Equal(bytes.TrimSpace(val), []byte("null")) {
+				return false
+			}
+			hasID = true
+		}
+	}
+	return hasID
+}
 
 // fuzzOne runs one document; it returns the violations (never calls t.Fatal so
-// that TestReplayC17 can use it as well).
-func fuzzOne(entity string, raw []byte) (viol []violation, skipped string) {
+// that TestReplayC17 can use it as well) and the class the input fell into.
+func fuzzOne(entity string, raw []byte) (viol []violation, class string) {
 	ctx := context.Background()
 	prefix := map[string]string{"connector": connPrefix, "pipeline": pipePrefix, "processor": procPrefix}[entity]
 	db := lab.NewFaultDB(nil)
 	if err := db.Set(ctx, prefix+fuzzID, append([]byte{}, raw...)); err != nil {
-		return nil, "db.Set failed"
+		return nil, "fuzz:db-set-failed"
 	}
 	s1 := newServices(db)
-	stage, err, panicked := s1.init(ctx)
+	stage, err, panicked := s1.init(ctx) // runs inside recover
+	if !inFuzzDomain(raw) {
+		// not a document of the property: classified, never reported
+		switch {
+		case panicked:
+			return nil, "fuzz:out-of-domain-panic"
+		case err != nil:
+			return nil, "fuzz:out-of-domain-rejected"
+		}
+		return nil, "fuzz:out-of-domain-accepted"
+	}
 	if panicked {
-		key := prop + "/fuzz/init-panic/" + stage
-		if stage == "pipeline" && strings.Contains(err.Error(), "pipeline.(*Store).decode") && strings.Contains(err.Error(), "nil pointer dereference") {
-			key = keyPipelineNilInstance
-		}
-		if stage == "connector" && strings.Contains(err.Error(), "connector.(*Store).decode") && strings.Contains(err.Error(), "nil pointer dereference") {
-			key = keyConnectorNullDoc
-		}
-		return []violation{{key, "Init panics on a stored document: " + truncate(err.Error(), 1500)}}, ""
+		return []violation{{prop + "/fuzz/init-panic/" + stage, "Init panics on a stored document: " + truncate(err.Error(), 1500)}}, "fuzz:in-domain-panic"
 	}
 	if err != nil {
-		return nil, "document rejected by Init"
+		return nil, "fuzz:in-domain-rejected"
 	}
 	var inst any
 	switch entity {
 	case "connector":
 		k, err := s1.conns.Get(ctx, fuzzID)
 		if err != nil {
-			return nil, "not loaded"
+			return nil, "fuzz:in-domain-not-loaded"
 		}
 		inst = k
 		if !validStrings(reflect.ValueOf(k)) {
-			return nil, "invalid UTF-8 in a string field"
+			return nil, "fuzz:in-domain-skipped-invalid-utf8-string"
 		}
 		if err := connector.NewStore(db, log.Nop()).Set(ctx, fuzzID, k); err != nil {
-			return []violation{{prop + "/fuzz/re-store-failed/connector", "a loaded connector cannot be stored again: " + err.Error()}}, ""
+			return []violation{{prop + "/fuzz/re-store-failed/connector", "a loaded connector cannot be stored again: " + err.Error()}}, "fuzz:in-domain-violation"
 		}
 	case "pipeline":
 		p, err := s1.pipes.Get(ctx, fuzzID)
 		if err != nil {
-			return nil, "not loaded"
+			return nil, "fuzz:in-domain-not-loaded"
 		}
 		inst = p
 		if !validStrings(reflect.ValueOf(p)) {
-			return nil, "invalid UTF-8 in a string field"
+			return nil, "fuzz:in-domain-skipped-invalid-utf8-string"
 		}
 		if err := pipeline.NewStore(db).Set(ctx, fuzzID, p); err != nil {
-			return []violation{{prop + "/fuzz/re-store-failed/pipeline", "a loaded pipeline cannot be stored again: " + err.Error()}}, ""
+			return []violation{{prop + "/fuzz/re-store-failed/pipeline", "a loaded pipeline cannot be stored again: " + err.Error()}}, "fuzz:in-domain-violation"
 		}
 	case "processor":
 		p, err := s1.procs.Get(ctx, fuzzID)
 		if err != nil {
-			return nil, "not loaded"
+			return nil, "fuzz:in-domain-not-loaded"
 		}
 		inst = p
 		if !validStrings(reflect.ValueOf(p)) {
-			return nil, "invalid UTF-8 in a string field"
+			return nil, "fuzz:in-domain-skipped-invalid-utf8-string"
 		}
 		if err := processor.NewStore(db).Set(ctx, fuzzID, p); err != nil {
-			return []violation{{prop + "/fuzz/re-store-failed/processor", "a loaded processor cannot be stored again: " + err.Error()}}, ""
+			return []violation{{prop + "/fuzz/re-store-failed/processor", "a loaded processor cannot be stored again: " + err.Error()}}, "fuzz:in-domain-violation"
 		}
 	}
 	_ = inst
@@ -150,10 +203,13 @@ func fuzzOne(entity string, raw []byte) (viol []violation, skipped string) {
 		if panicked {
 			key = prop + "/fuzz/reload-panic/" + stage
 		}
-		return []violation{{key, "the re-stored document cannot be loaded: " + err.Error()}}, ""
+		return []violation{{key, "the re-stored document cannot be loaded: " + err.Error()}}, "fuzz:in-domain-violation"
 	}
 	v, _ := compareServices("fuzz-fixedpoint", s1, s2)
-	return v, ""
+	if len(v) > 0 {
+		return v, "fuzz:in-domain-violation"
+	}
+	return nil, "fuzz:in-domain-fixed-point-checked"
 }
 
 func fuzzSeeds(f *testing.F, which ...string) {
@@ -171,17 +227,19 @@ func fuzzSeeds(f *testing.F, which ...string) {
 			}
 		}
 	}
-	if which[0] != "pipeline" {
-		f.Add([]byte(`{}`)) // for pipelines `{}` is finding F1 (fuzz seeds must pass)
-	}
+	// out-of-domain seeds (classified, never reported): see inFuzzDomain and NOTES.md R1/R2
+	f.Add([]byte(`{}`))
+	f.Add([]byte(`null`))
+	f.Add([]byte(`{"Status":1}`))
 	f.Add([]byte(`{"ID":"x","Type":1,"State":{"Position":"AP8="},"CreatedAt":"2001-02-03T04:05:06.789+05:45"}`))
 	f.Add([]byte(`{"ID":"x","Status":1,"DLQ":{"Settings":{" ":"\u0000"}},"ConnectorIDs":[],"ProcessorIDs":null}`))
 }
 
 func fuzzBody(entity string) func(t *testing.T, raw []byte) {
 	return func(t *testing.T, raw []byte) {
-		viol, _ := fuzzOne(entity, raw)
+		viol, class := fuzzOne(entity, raw)
 		st := pbt.For(prop)
+		st.Class(class, 1)
 		for _, v := range viol {
 			replay := map[string]any{"kind": "fuzz", "entity": entity, "raw_base64": base64.StdEncoding.EncodeToString(raw)}
 			if st.Report(v.Key, v.Detail, len(raw), replay) {
